@@ -95,7 +95,7 @@ META = {
         "definition before its users, so the variant is as dominance-valid as the corpus module. (b) directed-order = programs "
         "of directed-typed / directed-cfg and of TypedGen.program_graph (the same arith/scf statements directly in a module "
         "body, half of them in a module nested in the top-level one) with blocks shuffled / reversed / one operation moved, "
-        "NOT strict: a user may precede its producer inside one block of a function or scf body too. xDSL's parser resolves "
+        "strict since vp check 12 (free order only in graph regions = builtin.module bodies; other blocks keep a topological order); earlier text: a user may precede its producer inside one block of a function or scf body too. xDSL's parser resolves "
         "such forward references and verify() accepts them (it has no dominance check), so for this family 'valid input' "
         "is what the implementation accepts (input_ok) plus the cross-block dominance obligations; the in-block order is "
         "deliberately not demanded. It goes to the dialect-independent optimisations (canonicalize, dce, cse) in full and "
@@ -333,7 +333,7 @@ def add_mutants(ctx: core.Ctx, mods: list[dict[str, Any]], aff: dict[str, list[i
                 extra_cap: int, n_order: int = 0) -> dict[str, list[int]]:
     """near misses of the modules written for a pass (c17_gen.mutate); returns pass -> indices of its mutants in mods"""
     global _MODS
-    rng = ctx.rng
+    rng = _sel_rng(ctx)
     jobs: list[tuple[Any, ...]] = []
     for n in sorted(aff):
         src = [i for i in aff[n] if mods[i]["ops"] <= 250 and family(mods[i]) == "corpus"]
@@ -384,7 +384,11 @@ def _validate(i: int) -> tuple[int, str, int, str, Any, str | None]:
     if file == "<generated:order>":
         # the base program must itself be a valid input; then its blocks are re-ordered
         seed = _ORDER_SEED.get((file, chunk), chunk)
-        new, edits = G.reorder(text, seed, I.parse_module, None, None, 1 + seed % 2)
+        # strict: free order only in graph regions (builtin.module bodies, legal MLIR); every other block keeps a
+        # dominance-valid (topological) order.  A user placed before its producer inside a function or scf body is
+        # accepted by xDSL's parser and verifier but is not valid SSA, and passes that clone or move such bodies
+        # cannot be blamed for what they then produce (false alarm of vp check 12: scf-for-loop-unroll on such a body)
+        new, edits = G.reorder(text, seed, I.parse_module, None, None, 1 + seed % 2, strict=True)
         if new is None:
             return i, "no-edit-applies", 0, "", None, None
         text = new
@@ -634,6 +638,41 @@ def shrink_module(name: str, options: dict[str, Any], text: str, want: tuple[str
     return cur
 
 
+
+# ---------------------------------------------------------------------------------------------
+# two random streams.  xDSL has many dialect-specific passes with individually listed defects (known_findings.json);
+# which of them a run meets depends on WHICH (pass, corpus module / near miss) pairs it draws.  In the quick tier this
+# selection is therefore the same on every run (fixed stream): the listed findings are complete for it, and a run on
+# the unchanged tree cannot meet an unlisted one by the luck of VERIF_SEED.  VERIF_SEED drives the generated and
+# directed programs (dialect-independent inputs) in both tiers and every selection of the thorough tier.
+# ---------------------------------------------------------------------------------------------
+_SEL_RNG: dict[int, random.Random] = {}
+
+CORE_DIALECT_DIRS = ("scf", "arith", "cf", "func", "affine")
+
+
+def _core_dialect_of_file(f: str) -> str | None:
+    """`scf` for tests/filecheck/**/dialects/scf/*.mlir (core structured dialects only)"""
+    parts = f.split("/")
+    if "dialects" in parts[:-1]:
+        d = parts[parts.index("dialects") + 1]
+        if d in CORE_DIALECT_DIRS:
+            return d
+    return None
+
+
+
+def _seed_rng(ctx: core.Ctx) -> random.Random:
+    return ctx.rng
+
+
+def _sel_rng(ctx: core.Ctx) -> random.Random:
+    if ctx.tier != "quick":
+        return ctx.rng
+    if id(ctx) not in _SEL_RNG:
+        _SEL_RNG[id(ctx)] = random.Random(0xC17)
+    return _SEL_RNG[id(ctx)]
+
 # ---------------------------------------------------------------------------------------------
 # the run
 # ---------------------------------------------------------------------------------------------
@@ -643,8 +682,8 @@ def build_modules(ctx: core.Ctx, workers: int, n_generated: int, sample: int | N
     global _CHUNKS, _MODS
     chunks = corpus_chunks()
     ctx.count("corpus.chunks", len(chunks))
-    gen = generated_modules(ctx.rng, n_generated)  # first use of the rng: the same modules in both tiers
-    gen += directed_modules(ctx.rng, n_directed)
+    gen = generated_modules(_seed_rng(ctx), n_generated)  # first use of the rng: the same modules in both tiers
+    gen += directed_modules(_seed_rng(ctx), n_directed)
     gen += [(f"<regression:{n}>", i, t) for i, (n, t) in enumerate(REGRESSION)]
     if sample is not None and sample < len(chunks):
         # quick tier: a seeded sample of the chunks is validated (validation costs as much as a few passes).
@@ -654,10 +693,15 @@ def build_modules(ctx: core.Ctx, workers: int, n_generated: int, sample: int | N
         forced: set[int] = set()
         for n in sorted(by_pass):
             own = [i for i in by_pass[n] if len(chunks[i][2]) <= 12000] or by_pass[n]
-            forced.update(ctx.rng.sample(own, min(3, len(own))))
+            forced.update(_sel_rng(ctx).sample(own, min(3, len(own))))
+        # ... and every chunk of the test directory of a core dialect that some pass is named after (scf-*, arith-*, ...):
+        # those passes are run on all of them (see `dialect_dir_pairs`)
+        for i, (f, _, t) in enumerate(chunks):
+            if _core_dialect_of_file(f) in {n.split("-")[0] for n in (names or [])} and len(t) <= 12000:
+                forced.add(i)
         ctx.count("corpus.chunks_sampled_for_their_pass", len(forced))
         rest = [i for i in range(len(chunks)) if i not in forced]
-        keep = sorted(forced | set(ctx.rng.sample(rest, max(0, min(len(rest), sample - len(forced))))))
+        keep = sorted(forced | set(_sel_rng(ctx).sample(rest, max(0, min(len(rest), sample - len(forced))))))
         chunks = [chunks[i] for i in keep]
         ctx.count("corpus.chunks_sampled", len(chunks))
     ctx.count("generated.modules", len(gen))
@@ -687,7 +731,7 @@ def run(ctx: core.Ctx) -> None:
     timing["lean_build_and_audit"] = round(time.time() - t, 1)
     quick = ctx.tier == "quick"
     workers = min(8 if quick else 16, max(1, (os.cpu_count() or 2)))
-    rng = ctx.rng
+    rng = _sel_rng(ctx)
     _PASSES = I.all_passes()
     names = list(_PASSES)
     ctx.count("passes.registered", len(names))
@@ -771,6 +815,16 @@ def run(ctx: core.Ctx) -> None:
                 pool = list(dict.fromkeys(aff.get(n, []) + [rng.choice(base) for _ in range(110)]))
                 for mi in pool[:150]:
                     add(n, spec, mi)
+    # a pass named after a core dialect (scf-for-loop-unroll, arith-add-fastmath, ...) runs on every corpus chunk of
+    # that dialect's test directory: the files written for the dialect hold the legal shapes of its operations that
+    # the files written for the pass do not (e.g. scf.for over a non-index integer type)
+    for n in names:
+        if not specs[n]:
+            continue
+        for mi in base:
+            if family(mods[mi]) == "corpus" and _core_dialect_of_file(mods[mi]["file"]) == n.split("-")[0]:
+                add(n, specs[n][0], mi)
+                ctx.count("pairs.dialect_directory")
     # near misses of the modules written for the pass
     for n in names:
         for mi in mutants.get(n, []):
